@@ -23,6 +23,8 @@ ST_ = "magpylib/_src/style.py"
 TU_ = "magpylib/_src/display/traces_utility.py"
 TMF = FD + "field_BH_triangularmesh.py"
 MUTANTS = [
+    ("C15", "circle-wire-test-exact-z", FD + "field_BH_circle.py", "    mask2 = np.logical_and(abs(r - r0) < 1e-15 * r0, abs(z) < 1e-15 * r0)", "    mask2 = np.logical_and(abs(r - r0) < 1e-15 * r0, z == 0)", "red"),
+    ("C15", "cuboid-near-edge-guard-off", FD + "field_BH_cuboid.py", "        near = 1e-8  # relative size of w below which the difference loses all digits", "        near = 0.0", "red"),
     ("C19", "colour-slabs-deduplicated-colours", TU_, "    colors = [[v[1] for v in cs if v[0] == pos][-1] for pos in positions[:-1]]", "    colors = list(dict.fromkeys([v[1] for v in cs]))", "red"),
     ("C18", "style-class-correct-deepcopy-hook", "magpylib/_src/defaults/defaults_utility.py", "    def copy(self):",
      "    def __deepcopy__(self, memo):\n        import copy as _c\n\n        new = type(self).__new__(type(self))\n        memo[id(self)] = new\n        new.__dict__.update(_c.deepcopy(self.__dict__, memo))\n        return new\n\n    def copy(self):", "equivalent"),
